@@ -695,6 +695,12 @@ func (rt *runtime) convertCallParameterPath(v Value, t reflect.Type, path map[*o
 func (rt *runtime) toValue(value interface{}) Value {
 	rv, ok := value.(reflect.Value)
 	if ok {
+		switch {
+		case !rv.IsValid():
+			return Value{} // reflect.ValueOf(nil)
+		case !rv.CanInterface():
+			panic(rt.panicTypeError("cannot use a reflect.Value obtained from an unexported field"))
+		}
 		value = rv.Interface()
 	}
 
